@@ -106,6 +106,11 @@ def sweeps(tier, full):
         yield "product_name", dict(b, product_name=name_of_len(n).encode("latin-1"))
     for rot in range(0, 256, 16):
         yield "product_name", dict(b, product_name=name_of_len(32, rot).encode("latin-1"))
+    # every byte value as the first, the last and the only character (NUL, blanks, control characters, 0x80..0x9F, 0xFF): names are not trimmed or re-coded
+    for c in range(256):
+        ch = bytes([c])
+        for nm in (ch, b"Widget" + ch, ch + b"Widget", b"Wid" + ch + b"get", b"W" + ch + ch):
+            yield "product_name", dict(b, product_name=nm)
     for ip in IPS:
         yield "ip", dict(b, ip=ip)
     for st in (range(256) if full else (0, 1, 3, 5, 6, 254, 255)):
